@@ -751,7 +751,7 @@ class Interp:
             self.mock_touched = True
         if (sig, pub) in self.mock:
             return True
-        if pub in self.mock_pubs and self.mock_mode == 'fail':
+        if pub in self.mock_pubs and self.mock_mode.startswith('fail'):
             return False
         return None
 
@@ -783,6 +783,11 @@ class Interp:
         fl = self.flags
         m = self.mock_lookup(sig, pub)
         if m is True:
+            if sv == TAPSCRIPT and self.mock_mode.endswith('+budget') and len(sig) and self.weight is not None:
+                # (reading in which the BIP342 budget - a resource rule, neither context nor encoding - is charged for a pretended pair too)
+                self.weight -= VALIDATION_WEIGHT_PER_SIGOP_PASSED
+                if self.weight < 0:
+                    raise ScriptFail("TAPSCRIPT_VALIDATION_WEIGHT")
             return True
         if sv in (BASE, WITNESS_V0):
             scriptcode = self.script[self.begincode:]
